@@ -11,6 +11,7 @@ import (
 	"crypto/ed25519"
 	"crypto/elliptic"
 	"crypto/rand"
+	"crypto/rsa"
 	"crypto/sha256"
 	"fmt"
 	"io"
@@ -182,6 +183,42 @@ func tamperFixed(sw *sweep) {
 		if err != nil {
 			sw.fail("tamper", "rsa", "NewVerifier failed")
 			continue
+		}
+		// RFC 8230: the PSS salt is as long as the hash.  Signatures by the right key over the right
+		// bytes with any other salt length, or with another hash, are not valid PS256/384/512
+		{
+			h := hashOf(alg)
+			content := []byte("salt length")
+			dg := hashFor(alg, content)
+			for _, salt := range []int{0, 1, 20, h.Size() - 1, h.Size(), h.Size() + 1, rsa.PSSSaltLengthAuto} {
+				sig, err := rsa.SignPSS(rand.Reader, k, h, dg, &rsa.PSSOptions{SaltLength: salt})
+				if err != nil {
+					continue
+				}
+				sw.evals++
+				got, want := v.Verify(content, sig), stdVerify(rk, content, sig)
+				if (got == nil) != want {
+					sw.fail("tamper", fmt.Sprintf("alg=%d pss-salt-length=%d", alg, salt), fmt.Sprintf("RSA verifier verdict %v differs from PSS verification with the salt length RFC 8230 fixes (%v)", got, want))
+					continue
+				}
+				sw.nontrivial++
+			}
+			for _, other := range []cose.Algorithm{cose.AlgorithmPS256, cose.AlgorithmPS384, cose.AlgorithmPS512} {
+				if other == alg {
+					continue
+				}
+				oh := hashOf(other)
+				sig, err := rsa.SignPSS(rand.Reader, k, oh, hashFor(other, content), &rsa.PSSOptions{SaltLength: rsa.PSSSaltLengthEqualsHash})
+				if err != nil {
+					continue
+				}
+				sw.evals++
+				if v.Verify(content, sig) == nil {
+					sw.fail("tamper", fmt.Sprintf("alg=%d signature-made-under=%d", alg, other), "a signature made under another hash verifies")
+					continue
+				}
+				sw.nontrivial++
+			}
 		}
 		content := []byte("rsa length")
 		var sig []byte
